@@ -43,4 +43,14 @@ def build(tier):
         obs.append(Ob('O4b-bishoppawn-mirror@%d' % par, ue, 'h_bishoppawn_mirror', 'EndGameEval::isBishopPawnDraw<white>(P) == isBishopPawnDraw<white>(left-right mirrored P), ' + txt, unwind=65, core=False, param=par, timeout=1800, mem_gb=16, backend='kissat',
                       functions=['EndGameEval::isBishopPawnDraw<true> (endGameEval.cpp:587-720)'], stubs=['firstBit/lastBit/bitCount -> ctz/clz/popcount (proved in C01-O1)'],
                       bounds='all boards with one king each, no pawn on ranks 1/8, no white queen/rook/knight (the caller\'s precondition), both sides to move'))
-    return [u, ue], obs
+    # ---- O5: the score cache of evalPos is keyed so that half-move clocks with different scaling never share a tag
+    uc = Unit('evalcache', 'C07/evalcache.cpp', ['h_evalcache'],
+              aliases={'_ZN11NNEvaluator4evalEv': 'model_nnEval', '_ZN8Evaluate13materialScoreEb': 'model_materialScore', '_ZN8Evaluate16getEvalHashEntryEm': 'model_getEvalHashEntry'},
+              allow_extern=[r'_ZN11NNEvaluator.*', r'_ZN11EndGameEval.*', r'_ZN7MoveGen.*', r'_ZN6TBProbe.*', r'_ZNSt.*', r'_ZNKSt.*', r'_ZSt.*', r'_ZN10Parameters.*', r'_ZN14ParamTableBase.*', r'_ZN14ComputerPlayer.*', r'_ZT[VI].*', r'__cxa_\w+', r'_Z.*'])
+    for par, txt in ((0, 'more men than the tablebase limit (keys: plain below clock 40, per decade 40..79, per clock from 80)'), (1, 'within the tablebase limit (one key per clock)')):
+        obs.append(Ob('O5-evalcache@%d' % par, uc, 'h_evalcache', 'Evaluate::evalPos through a cache slot warmed by the same position at another half-move clock returns the cold-slot value (%s): the history-hash tag separates every two clocks whose half-move scaling differs' % txt,
+                      unwind=15, param=par, core=True, timeout=900, mem_gb=8, backend='kissat',
+                      functions=['Evaluate::evalPos<false> (evaluate.cpp:73-118)', 'Position::historyHash (position.hpp:304-315)', 'moveCntKeys[], halfMoveFactor[] (dumped natively)', 'interpolate', 'clamp'],
+                      stubs=['NNEvaluator::eval, Evaluate::materialScore -> one arbitrary value per run (same board)', 'getEvalHashEntry -> the slot chosen by the harness', 'mhd->endGame = false'],
+                      bounds='any hash key, side, material sums, piece sets, contempt in [-2000,2000]; half-move clocks 0..200 each; network output in [-20000,20000], material score in [-5000,5000]'))
+    return [u, ue, uc], obs
